@@ -158,6 +158,10 @@ func (c02Suite) Gen(rng *Rng, tier string, w *bufio.Writer, stats *Stats) {
 		emit("fragment:s2c", fg.chainQuery(), 0, 0)
 		stats.Inc("fragment.s2c")
 	}
+	for i := 0; i < nfrag/2; i++ {
+		emit("fragment:s1c", fg.countQuery(), 0, 0)
+		stats.Inc("fragment.s1c")
+	}
 	for _, k := range []string{"", ":NodeKind1", ":NodeKind2", ":NodeKind1:NodeKind2", ":NodeKind2:NodeKind1"} {
 		emit("fragment:count", "match (n"+k+") return count(n)", 0, 0)
 		stats.Inc("fragment.count")
